@@ -524,6 +524,9 @@ def self_baseline_variants(res):
             "multi.py": "import subprocess\npassword = 'pw'\nsubprocess.Popen('ls',\n    shell=True)\nassert x\n",
             "bidi_one.py": "x = 1\n# note \u202e hidden\ny = 2\n",
             "bidi_two.py": "x = 1\ns = 'a\u2066b'  # first\ny = 2\nz = 3  # \u202e second\nimport pickle\n",
+            # message texts that quote source text in a non-normalised form: the report must carry them as they are (seeded change C07-m6 NFC-normalised
+            # the serialised text only, so the baseline no longer matched the live finding)
+            "nfd.py": "password = 'Cafe\u0301-2024'\ntoken = 'A\u030angstro\u0308m'\nsecret = 'plain'\nkey = {'password': '\u1100\u1161\u11a8'}\n",
         }
         for name, src in progs.items():
             p = os.path.join(d, name)
